@@ -85,6 +85,17 @@ impl Obs {
         }
     }
     fn check_definition(&mut self, def: &RecordDefinition<NativeDatumDetails>) {
+        let known: Vec<(DatumId, usize)> = self.first_offsets.iter().map(|(d, o)| (*d, *o)).collect();
+        for (d, o) in known {
+            match def.get_datum_definition(d) {
+                Some(dd) if dd.id() == d => {
+                    if dd.details().offset() != o {
+                        self.fail(format!("C03: datum {} moved from {} to {} when the definition was built", d, o, dd.details().offset()));
+                    }
+                }
+                _ => self.fail(format!("C03: after build() datum {} of a closed variant is not found under its identifier", d)),
+            }
+        }
         let ms = catch_unwind(AssertUnwindSafe(|| def.max_size()));
         let ma = catch_unwind(AssertUnwindSafe(|| def.max_type_align()));
         if ms.is_err() {
@@ -516,6 +527,13 @@ fn main() {
             let pre = sc["pre"].as_array().cloned().unwrap_or_default();
             let stale: Vec<u64> = sc["stale"].as_array().map(|a| a.iter().filter_map(|x| x.as_u64()).collect()).unwrap_or_default();
             let rm: Vec<u64> = sc["rm"].as_array().map(|a| a.iter().filter_map(|x| x.as_u64()).collect()).unwrap_or_default();
+            let pending_first = sc["pending_first"].as_bool().unwrap_or(false);
+            if pending_first {
+                for (j, p) in sc["pending"].as_array().cloned().unwrap_or_default().iter().enumerate() {
+                    let id = add(&mut b, &format!("q{}", j), u(p, "s"), u(p, "a").max(1)).expect("pending");
+                    b.remove_datum(id).expect("remove pending");
+                }
+            }
             let mut end = 0u64;
             let mut fillers = Vec::new();
             let mut ids = Vec::new();
@@ -548,9 +566,11 @@ fn main() {
                 }
                 close(&mut b, "append_data");
             }
-            for (j, p) in sc["pending"].as_array().cloned().unwrap_or_default().iter().enumerate() {
-                let id = add(&mut b, &format!("q{}", j), u(p, "s"), u(p, "a").max(1)).expect("pending");
-                b.remove_datum(id).expect("remove pending");
+            if !pending_first {
+                for (j, p) in sc["pending"].as_array().cloned().unwrap_or_default().iter().enumerate() {
+                    let id = add(&mut b, &format!("q{}", j), u(p, "s"), u(p, "a").max(1)).expect("pending");
+                    b.remove_datum(id).expect("remove pending");
+                }
             }
             // observation starts from the pre-state
             for (i, _) in pre.iter().enumerate() {
